@@ -152,6 +152,12 @@ def d_archives(ctx):
             for a, b in ((LIMIT - 4, LIMIT * 3), (LIMIT * 3, LIMIT - 4), (LIMIT, LIMIT + 1), (LIMIT + 1, LIMIT)):
                 scripted.append((fmt0, [(0, "same.txt", "txt", a), (1, "same.txt", "txt", b), (2, "other.txt", "txt", 5)]))
                 scripted.append((fmt0, [(0, "x.txt", "txt", 7), (1, "d/same.md", "md", a), (2, "d/same.md", "md", b)]))
+        # tar link / special members: not regular files, must never be read (a hard link to an oversize
+        # member would otherwise be materialised under the link's name)
+        for fmt0 in ("tar", "tar.gz"):
+            for a in (LIMIT * 3, LIMIT - 4):
+                scripted.append((fmt0, [(0, "big.txt", "txt", a), (1, "hard.txt", "lnk:big.txt", 0), (2, "soft.txt", "sym:big.txt", 0),
+                                        (3, "fifo.txt", "fifo", 0), (4, "z.txt", "txt", 5)]))
         n_random = ctx.n(60, 600)
         for it in range(len(scripted) + n_random):
             n = rng.randint(0, 6) if it >= len(scripted) else 0
@@ -170,9 +176,10 @@ def d_archives(ctx):
             if fmt.startswith("7z") and len({nm for _, nm, _, _ in members}) < len(members):
                 members = [(i, (nm if k == "dir" else f"u{i}_" + nm), k, sz) for i, nm, k, sz in members]  # 7z: keep names unique
             data_of = {}
+            special = lambda k: k == "dir" or k == "fifo" or k.startswith(("lnk:", "sym:"))
             for i, nm, k, sz in members:
                 tok = b"%d " % i
-                data_of[i] = (tok * ((max(sz, len(tok)) // len(tok)) + 1))[:max(sz, len(tok))] if sz > 0 else b""
+                data_of[i] = (tok * ((max(sz, len(tok)) // len(tok)) + 1))[:max(sz, len(tok))] if (sz > 0 and not special(k)) else b""
             del reads[:], writes[:]
             buf = io.BytesIO()
             if fmt.startswith("zip"):
@@ -186,6 +193,11 @@ def d_archives(ctx):
                         ti = tarfile.TarInfo(nm.rstrip("/"))
                         if k == "dir":
                             ti.type = tarfile.DIRTYPE
+                            tf.addfile(ti)
+                        elif k.startswith(("lnk:", "sym:")) or k == "fifo":
+                            ti.type = {"lnk": tarfile.LNKTYPE, "sym": tarfile.SYMTYPE, "fif": tarfile.FIFOTYPE}[k[:3]]
+                            if ":" in k:
+                                ti.linkname = k.split(":", 1)[1]
                             tf.addfile(ti)
                         else:
                             ti.size = len(data_of[i])
@@ -212,7 +224,7 @@ def d_archives(ctx):
             pr_ids = [result_id(r) for r in results]
             mem_terms = []
             for i, nm, k, sz in members:
-                regular = k != "dir"
+                regular = not special(k)
                 skip = ae._should_skip_file(nm, os.path.basename(nm)) if regular else False
                 real_size = len(data_of[i]) if regular else 0
                 mem_terms.append(f"({i}%nat, {real_size}, {'true' if regular else 'false'}, {'true' if skip else 'false'})")
@@ -235,6 +247,10 @@ def d_archives(ctx):
                                     {"format": fmt, "members": members, "archive": buf.getvalue()})
             else:
                 rd_ids = list(reads)
+                for i, nm, k, sz in members:
+                    if special(k) and k != "dir" and (i in rd_ids or i in pr_ids):
+                        ctx.finding(f"non-regular-member-read:{fmt}:{k[:3]}", f"{fmt} member {nm} ({k}) is not a regular file but was read/processed",
+                                    {"format": fmt, "members": members, "archive": buf.getvalue()})
                 zcases.append(f"({LIMIT}, [{';'.join(mem_terms)}], {natl(rd_ids)}, {natl(pr_ids)})")
                 zinfo.append((fmt, members, rd_ids, pr_ids, err))
                 for i, nm, k, sz in members:
@@ -426,6 +442,93 @@ def measured(ctx):
                         f"multiple of the input size", {"input": data, "measurement": m, "file_name": name})
 
 
+SCALE_WORKER = r'''
+import io, sys, resource, time, json
+sys.path.insert(0, sys.argv[1])
+import logging; logging.disable(logging.CRITICAL)
+kind, path = sys.argv[2], sys.argv[3]
+data = open(path, "rb").read()
+from sharepoint2text.parsing.router import get_extractor
+f = get_extractor("x." + kind)
+r0 = resource.getrusage(resource.RUSAGE_SELF)
+try:
+    n = sum(1 for _ in f(io.BytesIO(data), "x." + kind)); out = "ok"
+except Exception as e:
+    out = type(e).__name__
+r1 = resource.getrusage(resource.RUSAGE_SELF)
+print(json.dumps({"out": out, "cpu": (r1.ru_utime + r1.ru_stime) - (r0.ru_utime + r0.ru_stime), "in": len(data)}))
+'''
+
+
+def scaling(ctx):
+    """CPU time of size-n vs size-4n inputs of the same shape (measured in a sandboxed worker; evidence, not proof).
+    A super-linear blow-up is reported when t(4n)/t(n) > 10 and t(4n) > 2 s of CPU."""
+    def mbox(k):
+        msg = (b"From a@x.org Mon Jan  1 00:00:00 2024\nFrom: A <a@x.org>\nTo: B <b@x.org>\nSubject: s\n"
+               b"Date: Mon, 01 Jan 2024 00:00:00 +0000\n\nb\n\n")
+        return msg * k
+
+    def html(k):
+        return b"<html><body>" + b"<div><p>x</p>" * k + b"</div>" * k + b"</body></html>"
+
+    def rtf(k):
+        return b"{\\rtf1 " + b"{\\b x}" * k + b"}"
+
+    def txt(k):
+        return b"line of text\n" * k
+
+    shapes = [("mbox", mbox, ctx.n(1500, 6000)), ("html", html, ctx.n(150, 220)), ("rtf", rtf, ctx.n(4000, 16000)),
+              ("txt", txt, ctx.n(20000, 80000))]
+    meas = {}
+    with tempfile.TemporaryDirectory(dir="/var/tmp") as td:
+        wp = os.path.join(td, "w.py")
+        open(wp, "w").write(SCALE_WORKER)
+        for kind, gen, k in shapes:
+            row = []
+            for mult in (1, 4):
+                fp = os.path.join(td, f"{kind}{mult}.{kind}")
+                open(fp, "wb").write(gen(k * mult))
+                try:
+                    p = subprocess.run(["/venv/bin/python", wp, str(common.REPO), kind, fp], capture_output=True, text=True, timeout=240)
+                    row.append(json.loads(p.stdout.strip().splitlines()[-1]))
+                except Exception as e:  # noqa
+                    row.append({"out": "worker-failed:" + type(e).__name__, "cpu": 240.0, "in": os.path.getsize(fp)})
+            meas[kind] = row
+            ctx.case(("scaling", kind), True, kind="measured:scaling:" + kind)
+            t1, t4 = max(row[0]["cpu"], 0.02), row[1]["cpu"]
+            if t4 / t1 > 10 and t4 > 2.0:
+                ctx.finding(f"superlinear:{kind}", f"{kind}: CPU time grows super-linearly: {row[0]['in']} B -> {t1:.2f} s, "
+                            f"{row[1]['in']} B -> {t4:.2f} s (x{t4 / t1:.1f} for x4 input)",
+                            {"kind": kind, "measurements": row, "generator": f"{kind}({k}) and {kind}({4 * k})"})
+    # function-level scaling of separator-driven splitters (dense inputs the whole extractor would take minutes on)
+    fn_src = (
+        "import sys,time,resource,json; sys.path.insert(0, sys.argv[1]);\n"
+        "from sharepoint2text.parsing.extractors.mail.mbox_email_extractor import _split_mbox_messages as f\n"
+        "out=[]\n"
+        "for k in (int(sys.argv[2]), 4*int(sys.argv[2])):\n"
+        "    d=(b'From a@x.org Mon Jan  1 00:00:00 2024\\n\\nx\\n\\n')*k\n"
+        "    r0=resource.getrusage(resource.RUSAGE_SELF); n=len(f(d)); r1=resource.getrusage(resource.RUSAGE_SELF)\n"
+        "    out.append({'in':len(d),'n':n,'cpu':(r1.ru_utime+r1.ru_stime)-(r0.ru_utime+r0.ru_stime)})\n"
+        "print(json.dumps(out))\n")
+    try:
+        p = subprocess.run(["/venv/bin/python", "-c", fn_src, str(common.REPO), str(ctx.n(20000, 30000))], capture_output=True, text=True, timeout=240)
+        row = json.loads(p.stdout.strip().splitlines()[-1])
+    except subprocess.TimeoutExpired:
+        row = [{"in": 0, "n": 0, "cpu": 0.0}, {"in": 0, "n": 0, "cpu": 240.0}]
+    except Exception as e:  # noqa
+        row = None
+        ctx.count("scaling:split-worker-failed:" + type(e).__name__)
+    if row:
+        meas["_split_mbox_messages"] = row
+        ctx.case(("scaling", "_split_mbox_messages"), True, kind="measured:scaling:mbox-split")
+        t1, t4 = max(row[0]["cpu"], 0.02), row[1]["cpu"]
+        if t4 / t1 > 10 and t4 > 1.5:
+            ctx.finding("superlinear:mbox-split", f"_split_mbox_messages: CPU time grows super-linearly in the number of 'From ' lines: "
+                        f"{row[0]['in']} B -> {t1:.2f} s, {row[1]['in']} B -> {t4:.2f} s (x{t4 / t1:.1f} for x4 input)",
+                        {"measurements": row, "generator": "(b'From a@x.org Mon Jan  1 00:00:00 2024\\n\\nx\\n\\n') * k"})
+    ctx.extra["scaling"] = meas
+
+
 def run(ctx):
     import logging
     import warnings
@@ -456,6 +559,7 @@ def run(ctx):
     d_ods(ctx)
     d_spaces(ctx)
     measured(ctx)
+    scaling(ctx)
 
 
 META = {
